@@ -61,6 +61,7 @@ type gen struct {
 	r       *coqfmt.Rng
 	src     int
 	next    int
+	shorts  int // pflag shorthands handed out
 	targets []target
 	leaves  [][]string // paths of all leaves (for the independent fields)
 	leafT   []reflect.Type
@@ -153,6 +154,16 @@ func (g *gen) strct(depth int, path []string, underAlias bool, collect bool) ref
 				}
 			} else if r.Chance(1, 5) {
 				sf.Tag = reflect.StructTag(fmt.Sprintf(`dials:"l_%s"`, strings.ToLower(name)))
+			}
+			if g.src == 2 && !underAlias && g.shorts < 52 && r.Chance(1, 3) {
+				// a one-letter pflag shorthand (unique per type), on aliased and other leaves
+				l := string("abcdefgijklmnopqrstuvwxyzABCDEFGHIJKLMNOPQRSTUVWXYZh"[g.shorts])
+				g.shorts++
+				sep := ""
+				if sf.Tag != "" {
+					sep = " "
+				}
+				sf.Tag = reflect.StructTag(string(sf.Tag) + sep + fmt.Sprintf(`dialspflagshort:"%s"`, l))
 			}
 			fields = append(fields, sf)
 			g.leaves = append(g.leaves, p)
@@ -704,7 +715,7 @@ func gen_(r *coqfmt.Rng, n int, tier string) []json.RawMessage {
 func main() {
 	driver.Main(driver.Engine{
 		Prop: "C14", CoqImport: "Dials.Check.C14Check", CoqRun: "run_cases",
-		Rule: "random config types (scalar leaves of 11 kinds incl. durations and named scalars, nested value/pointer structs to depth 3, embedded structs) with dialsalias tags; every supplied value is the Go zero value of its type (false, 0, \"\", 0s) with probability 1/3 (every non-empty subset of {dialsalias, dialsenvalias / dialsflagalias / dialspflagalias} on leaves - incl. ONLY the source-specific alias - each of dials and the source-specific primary tag present or not, dialsdesc) on random leaf and struct-typed fields at any depth; up to 3 aliased targets per type, ALL 4^k neither/primary/alias/both patterns; other leaves set independently with probability 1/3; each type through one of: env source (with and without prefix), std flag source, pflag source, JSON decoder wrapped with ez's alias/reformat/set-slice manglers, or (four static config types with aliases on leaves, struct-typed, pointer and embedded fields) a JSON config FILE read through the real ez.JSONConfigEnvFlag with Params drawn from DisableAutoSetToSlice x FileFieldNameEncoder in {nil, nil, lower_snake, kebab}, its view compared with the alias-wrapped decoder's result; non-trivial: at least one target and a pattern other than all-neither; distinct = distinct (type state, source, pattern)",
+		Rule: "random config types (scalar leaves of 11 kinds incl. durations and named scalars, nested value/pointer structs to depth 3, embedded structs) with dialsalias tags; every supplied value is the Go zero value of its type (false, 0, \"\", 0s) with probability 1/3 (every non-empty subset of {dialsalias, dialsenvalias / dialsflagalias / dialspflagalias} on leaves - incl. ONLY the source-specific alias - each of dials and the source-specific primary tag present or not, dialsdesc; for the pflag source one leaf in three, aliased or not, carries a one-letter dialspflagshort) on random leaf and struct-typed fields at any depth; up to 3 aliased targets per type, ALL 4^k neither/primary/alias/both patterns; other leaves set independently with probability 1/3; each type through one of: env source (with and without prefix), std flag source, pflag source, JSON decoder wrapped with ez's alias/reformat/set-slice manglers, or (four static config types with aliases on leaves, struct-typed, pointer and embedded fields) a JSON config FILE read through the real ez.JSONConfigEnvFlag with Params drawn from DisableAutoSetToSlice x FileFieldNameEncoder in {nil, nil, lower_snake, kebab}, its view compared with the alias-wrapped decoder's result; non-trivial: at least one target and a pattern other than all-neither; distinct = distinct (type state, source, pattern)",
 		Gen:  gen_, Run: run,
 	})
 }
